@@ -18,7 +18,7 @@ CLAIMED = {
           "The program never stores a LoopHandle inside something the loop owns (the documented cycle).", "3/C06"),
   "C07": ("dsim", "deterministic simulation: disable/enable histories from outside and inside callbacks, model oracle", "exploration",
           "The callback oracle of C01 enforces silence while disabled (including events already collected in the batch and the deferred self-disable); the MUST oracle of C02 computed after enable() enforces retention of readiness (pings, messages, unread bytes, expired deadlines).",
-          "enable() of an enabled source and update() of a disabled source are outside the documented protocol and are not generated.", "3/C07"),
+          "enable() of an enabled source is outside the documented protocol and is not generated. update() of a disabled source is generated (its Ok/Err result is not specified, the source must stay silent and disabled); on the unchanged tree it enabled timers and lifecycle sources: defect fixed by c09e3c6.", "3/C07"),
   "C12": ("dsim", "deterministic simulation with virtual clock: requested poller timeout compared exactly with the model", "exploration",
           "The wait hook records the effective timeout calloop asks the poller for; with the virtual clock it must equal min(timeout, earliest armed deadline - now) exactly, be Some(0) for a zero timeout and None when nothing limits the wait; an idle dispatch must end at start + effective timeout, having fired the limiting timer.",
           "How precisely the kernel honours the timeout is not judged (virtual time); polling's notify is observed through the real eventfd counter.", "3/C12"),
@@ -37,7 +37,7 @@ CLAIMED.update({
   "C09": ("dsim", "deterministic simulation: every source wrapped in a call-counting EventSource; register/reregister/unregister calls vs the calls the history implies", "exploration",
           "Every calloop source is inserted through a transparent wrapper that counts register/reregister/unregister calls and reports the returned PostAction; after every event and every step the counts of all sources must equal what the model derives from the history (Continue: nothing, Reregister: one reregister on that source, Disable: one unregister, Remove: one unregister and release; deferred self-requests merged only under Continue; nothing on any other source, nothing carried over, also after an error). The 16 PostAction pairs of | and |= are evaluated at the start of every run.",
           "The wrapper is harness code (thin delegation).", "3/C09"),
-  "C14": ("dsim", "deterministic simulation: instrumented lifecycle sources (synthetic sub-token + ping child) under update/disable/enable/remove/failed registrations, per-dispatch call trace oracle", "exploration",
+  "C14": ("dsim", "deterministic simulation: instrumented lifecycle sources (synthetic sub-token + one or two ping children, registrations failing at the last step, rejected sources kept alive) under update/disable/enable/remove/failed registrations, per-dispatch call trace oracle", "exploration",
           "Harness sources that opt into the additional lifecycle events record every before_sleep / before_handle_events call with its position relative to the wait and to the first process_events; per dispatch whose hooks and wait succeed: entitled (inserted and enabled at dispatch start) sources get exactly one of each in order, others none; a synthetic event forces a requested timeout of 0 and is delivered once to the same source; the iterator yields exactly the keys of the recorded real batch that carry the source's registration token; the lifecycle set size equals the model count with no duplicates. Scripted register/reregister/unregister/before_sleep failures are part of the histories.",
           "The lifecycle source is harness code written against the EventSource documentation.", "3/C14"),
   "C15": ("dsim", "deterministic simulation with fault enumeration: every epoll_ctl seam call and every process_events call of a fault-free history is failed in turn", "fault_enumeration",
@@ -47,14 +47,14 @@ CLAIMED.update({
 
 CLAIMED.update({
   "C17": ("dsim", "deterministic simulation: scripted futures over Async adapters on small-buffer socketpairs/pipes, raw peers, byte-stream and wake-up oracles", "exploration",
-          "Hand-written futures move pattern bytes through poll_read / poll_write / vectored variants / flush / readable() / writable() with generated chunk sizes (1 B .. larger than the 4 KiB buffers) while the program drives the raw peer and places dispatches; oracles: every byte read equals the byte the peer wrote at that stream position (prefix at all times), a task parked on an fd that poll(2) reports ready when the batch is collected has its waker invoked by that dispatch (proxy waker), then the executor oracle demands the poll; O_NONBLOCK is set while adapted and equals the original mode after drop / into_inner / failed adapt_io; the fd leaves the poller when the adapter goes.",
+          "Hand-written futures move pattern bytes through poll_read / poll_write / vectored variants / flush / readable() / writable() with generated chunk sizes (1 B .. larger than the 4 KiB buffers) while the program drives the raw peer and places dispatches; oracles: every byte read equals the byte the peer wrote at that stream position (prefix at all times), when the stream ends (EOF, or a connection reset because the peer closed with bytes unread) the reader has been handed every byte the peer wrote, a task parked on an fd that poll(2) reports ready when the batch is collected has its waker invoked by that dispatch (proxy waker), then the executor oracle demands the poll; O_NONBLOCK is set while adapted and equals the original mode after drop / into_inner / failed adapt_io; the fd leaves the poller when the adapter goes.",
           "The futures and the Read/Write object are harness code; adapters share the fd with the simulator (fd stays open after the adapter is gone, the harsher case).", "3/C17"),
 })
 
 CLAIMED.update({
   "C18": ("dsim", "deterministic simulation: instrumented children inside TransientSource inside a documented-style parent in a real loop; registration log and kernel table vs a protocol model", "exploration",
           "Children (over a real pipe read end and over a real Timer) log every register/reregister/unregister/drop; histories over child post actions Continue/Reregister/Disable/Remove, remove(), replace(new), map() and parent-level enable/disable/update/remove, from From<T> and Default, each change followed by a re-registration request as documented. After every event and step: child registered iff it is the current kept child of a registered parent, never registered twice nor unregistered twice (while the parent's own calls alternate), retired children unregistered before being dropped and dropped by the retiring re-registration, events only from the current child, wrapper returns only Continue/Reregister, kernel epoll table agrees.",
-          "Known finding F10 (child Disable followed by any re-registration unregisters twice) ends the runs that hit it. remove() on a Replace state (documented leak) and non-alternating parent calls (LoopHandle::remove of a disabled source) are outside the property's proviso.", "3/C18"),
+          "remove() on a Replace state (documented leak) and non-alternating parent calls (LoopHandle::remove of a disabled source) are outside the property's proviso.", "3/C18"),
 })
 
 CLAIMED.update({
